@@ -249,8 +249,30 @@ func UnpackTar(reader io.Reader, outputDir string, force bool) error {
 }
 
 func UnpackTarWithOptions(reader io.Reader, outputDir string, force bool, options ArchiveOptions) error {
-	_, err := unpackTarWithOptions(reader, outputDir, force, options, false)
-	return err
+	// Extract into a staging directory next to the destination and promote it by rename only after every
+	// entry was accepted, like Unpack does for encrypted archives: a hostile or corrupt later entry must not
+	// leave the earlier entries behind in the destination.
+	stagingDir, err := createUnpackStagingDirectory(outputDir, force)
+	if err != nil {
+		return err
+	}
+	cleanupStaging := true
+	defer func() {
+		if cleanupStaging {
+			_ = os.RemoveAll(stagingDir)
+		}
+	}()
+
+	if _, err := unpackTarWithOptions(reader, stagingDir, false, options, false); err != nil {
+		return err
+	}
+
+	if err := promoteUnpackStagingDirectory(stagingDir, strings.TrimSpace(outputDir), force); err != nil {
+		return err
+	}
+
+	cleanupStaging = false
+	return nil
 }
 
 type unpackedFileIntegrity struct {
